@@ -19,7 +19,7 @@ TABLE = {
         "Every permutation of an address-hashed set is assumed feasible. Fuel limit 20k + 40k library calls per block (>= 40x the measured cost). <= 8 blocks.",
     ),
     "C03": (
-        "Hypothesis PBT, differential against an independent geometric-progression model; round-trip (inversion) relation",
+        "Hypothesis PBT, differential against an independent geometric-progression model; round-trip (inversion) relation; thorough tier adds atheris/libFuzzer coverage-guided campaigns through the same strategies and oracle",
         "Generated search (exploration) over six decades of length, all 10 parameter pairs, counts 1..200, ratios in [0.5, 2] with a dedicated neighbourhood-of-1 and exact-integer generator; results are compared with an independent model of blockMesh's progression; realisable sets in a stated core domain must be accepted.",
         "Trusts vf/refmodel.gp_* as the blockMesh semantics. Tolerance 1e-9 + n*1.5e-7 relative on realised sizes. One known finding (count = 1 with start size) is matched narrowly.",
     ),
@@ -44,7 +44,7 @@ TABLE = {
         "Ground truth is geometric (end points + curve in the user's sense). Known finding F7 (Face.invert keeps direction-dependent payload) is matched in a witness cell only.",
     ),
     "C08": (
-        "Hypothesis PBT; differential against the analytic circle (own cos/sin construction, circle through 3 points)",
+        "Hypothesis PBT; differential against the analytic circle (own cos/sin construction, circle through 3 points); thorough tier adds atheris/libFuzzer campaigns on the numeric cells",
         "Generated search (exploration): centre/axis in general position, radii over three decades, sector angles in (0.1, 2pi-0.05) of either sign; mid point of angle/origin arcs within 1e-7 R of the analytic mid point, lengths R*theta within 1e-7, the arc line of the written file, three-point arc length, chord bound for every edge kind.",
         "Known findings F10 (OpenFOAM's interior/exterior convention) and C08-N2 (absolute collinearity tolerance on tiny arcs) are confined to witness cells with narrow predicates.",
     ),
@@ -89,7 +89,7 @@ TABLE = {
         "WrappedDisk (three tiers) partition is not required to be exhaustive. One known finding (HalfSplineDisk grid) matched narrowly.",
     ),
     "C20": (
-        "Hypothesis PBT + enumerated boundary grids; expected accept/reject class from the documented condition; metamorphic symmetry (+delta / -delta)",
+        "Hypothesis PBT + enumerated boundary grids; expected accept/reject class from the documented condition; metamorphic symmetry (+delta / -delta); thorough tier adds atheris/libFuzzer campaigns on the index/count cells",
         "Generated search (exploration): 34 call sites with a documented precondition, arguments on both sides of each boundary (counts, indices -1/0/max/max+1, 1-3 projection labels, length ratios, radii, perpendicularity deviations of either sign, chain lengths, sketch face counts, clamps/links, life-cycle order); invalid must raise, valid must not; symmetric conditions judged on both sides.",
         "Only conditions the statement lists are asserted; nothing within 10-100x of a tolerance boundary is asserted.",
     ),
@@ -145,7 +145,7 @@ def main() -> None:
         )
     manifest = {
         "version": 1,
-        "setup_cmd": "/venv/bin/python -c 'import hypothesis, numpy, scipy' 2>/dev/null || /venv/bin/pip install --no-index --find-links /opt/veriftools/wheels hypothesis",
+        "setup_cmd": "(/venv/bin/python -c 'import hypothesis, numpy, scipy' 2>/dev/null || /venv/bin/pip install --no-index --find-links /opt/veriftools/wheels hypothesis) && (/venv/bin/pip install -q --no-index --find-links /opt/veriftools/wheels --target /verif/.deps atheris >/dev/null 2>&1 || true)",
         "hooks": {
             "guard": "CLASSY_BLOCKS_VERIF",
             "enable": "no hooks are compiled in: the harness puts /repo/src first on sys.path (pure Python, nothing to build) and observes public objects; schedule, fuel and fault control happen inside the harness process",
